@@ -37,6 +37,13 @@ def _hook():
         _HOOKED = True
 
 
+def _ancestors(node, stop):
+    a = node.parent
+    while a is not None and a is not stop:
+        yield a
+        a = a.parent
+
+
 def S(i):
     return f'<b data-s="{i}">p</b>'
 
@@ -60,6 +67,8 @@ RAWC = {
     "subst-html": ("raw", lambda i: "{{rawsub}}\n"),
     "subst-rst-ref": ("raw", lambda i: "inline {{rawsub}} use\n\n{{rawsub}}\n\n```{eval-rst}\nsee |rawsub| here\n```\n"),  # the MyST substitution is not an rST substitution definition
     "footnote-in-discarded": ("raw", lambda i: f"x[^d{i}]\n\n```{{figure}} a.png\n- item\n\n  [^d{i}]: note {S(i)} and ~~s~~\n```\n"),
+    # raw markup inside a heading that other things are derived from (ids, the text of empty links): the refusal must not leak into them
+    "raw-title": ("raw", lambda i: f"(lbl{i})=\n## Head {S(i)} tail\n\n[](#lbl{i}) and [](#head-p-tail) and {{ref}}`lbl{i}`\n"),
     "title-attr": ("esc", lambda i: f"[l](u '{S(i)}')\n"),
     "comment": ("rawnode-html", lambda i: f"<!-- {S(i)} -->\n"),
     "footnote-html": ("raw", lambda i: f"ref[^f{i}]\n\n[^f{i}]: note with {S(i)} and a\\\n  break\n"),
@@ -237,6 +246,7 @@ class SecuritySystem(System):
             viol.append(violation(clause, {"clause": clause, "construct": "+".join(sorted(set(cons))), **sig},
                                   f"{cons} in {chain}: {msg}", text=text, files=files, substitutions=subs))
 
+        shape = {}
         for raw in (True, False):
             for fi in (True, False):
                 st = {"myst_enable_extensions": EXT, "myst_substitutions": subs, "raw_enabled": raw, "file_insertion_enabled": fi}
@@ -248,6 +258,12 @@ class SecuritySystem(System):
                 sent_html = [i for i in sents if f'data-s="{i}"' in h] + (["91/92"] if re.search(r'data-s="9[12]"', h) else [])
                 fsent = bool(re.search(r"FILESENT\d", h + d.astext()))
                 digest.append((nraw, bool(sent_html), fsent, len(opened)))
+
+                def own_text(n):
+                    return "".join(t.astext() for t in n.findall(nodes.Text)
+                                   if not any(isinstance(a, (nodes.system_message, nodes.raw)) for a in _ancestors(t, n)))
+
+                shape[(raw, fi)] = (tuple(tuple(sec["ids"]) for sec in d.findall(nodes.section)), tuple(own_text(r) for r in d.findall(nodes.reference)))
                 if "PRE" not in h or "POST" not in h or "PRE" not in d.astext() or "POST" not in d.astext():
                     bad("rest-processed", f"raw_enabled={raw} file_insertion_enabled={fi}: the surrounding paragraphs were lost", raw=raw, fi=fi)
                 if not raw:
@@ -269,6 +285,10 @@ class SecuritySystem(System):
                         bad("refusal-reported", f"file_insertion_enabled=False: {nrep} reports for {nread} refused file directives", reports=min(nrep, 1))
                 if raw and fi:
                     positive = bool(nraw or sent_html or fsent or opened)
+        for fi in (True, False):
+            if shape.get((False, fi)) != shape.get((True, fi)) and not via_file and all(k in ("raw", "rawnode", "rawnode-html", "esc") for k in kinds):
+                bad("rest-processed", f"file_insertion_enabled={fi}: section ids / link texts with raw disabled {shape.get((False, fi))} differ from those with raw enabled {shape.get((True, fi))}",
+                    kind="derived-text")
         return Obs(digest=tuple(digest), nontrivial=positive, violations=viol[:4], transitions=8, validated=4)
 
 
